@@ -110,6 +110,13 @@ def build_coq(clean=False):
             rc, out, err, dt = run(["timeout", "3000", "make", "-k", "-j16"], cwd=COQ, timeout=3100)
     logtxt = out + err
     failing = re.findall(r'File "\./([^"]+)", line (\d+)', logtxt) if rc != 0 else []
+    # a file that no longer compiles must not leave the .vo of an earlier build behind
+    for fn, _ in failing:
+        for ext in (".vo", ".vos", ".vok", ".glob"):
+            try:
+                os.remove(os.path.join(COQ, fn[:-2] + ext))
+            except (FileNotFoundError, IsADirectoryError):
+                pass
     log("coq make rc=%d in %.1fs" % (rc, dt))
     return rc == 0, failing, logtxt
 
